@@ -15,6 +15,7 @@ import (
 	"github.com/Ptt-official-app/go-pttbbs/cache"
 	"github.com/Ptt-official-app/go-pttbbs/cmbbs"
 	"github.com/Ptt-official-app/go-pttbbs/cmbbs/path"
+	"github.com/Ptt-official-app/go-pttbbs/cmsys"
 	"github.com/Ptt-official-app/go-pttbbs/ptt"
 	"github.com/Ptt-official-app/go-pttbbs/ptt/fav"
 	"github.com/Ptt-official-app/go-pttbbs/ptttype"
@@ -177,11 +178,15 @@ func init() {
 				default:
 					return errs(2)
 				}
-				if err != nil {
-					return c01ErrCode(err)
-				}
 				b, e2 := os.ReadFile(ptttype.FN_PASSWD)
 				must(e2)
+				if err != nil {
+					r := c01ErrCode(err)
+					if !bytes.Equal(b, ab(args[4])) {
+						r = append(r, "1") // refused, yet the file changed
+					}
+					return r
+				}
 				return okb(b)
 			case 5: // level-2 update of a user's .PASSWD2
 				getEnv()
@@ -236,6 +241,32 @@ func init() {
 					return c01ErrCode(err)
 				}
 				return append(ok(ou(uint64(lv))), ob(h[:])...)
+			case 8: // append n PostLog records to a fresh .post through cmsys.AppendRecord: indices ..., final size
+				dir, err := os.MkdirTemp("", "verifpost")
+				must(err)
+				defer os.RemoveAll(dir)
+				fn := filepath.Join(dir, ".post")
+				out := []string{"0"}
+				for k := int64(0); k < ai(args[1][0]); k++ {
+					pl := &ptt.PostLog{TheDate: types.Time4(1600000000 + k), Number: int32(k + 1)}
+					copy(pl.Author[:], "SYSOP")
+					copy(pl.Board[:], "WhoAmI")
+					copy(pl.Title[:], "title")
+					idx, err := cmsys.AppendRecord(fn, pl, ptt.POSTLOG_SZ)
+					if err != nil {
+						return errs(99)
+					}
+					out = append(out, oi(int64(idx)))
+				}
+				st, err := os.Stat(fn)
+				must(err)
+				return append(out, oi(st.Size()), oi(int64(cmsys.GetNumRecords(fn, ptt.POSTLOG_SZ))))
+			case 9: // the call the legacy v4 favourites reader makes for a folder entry
+				buf := make([]byte, fav.SIZE_OF_FAV_FOLDER)
+				if err := types.BinRead(bytes.NewReader(buf), &fav.FavFolder{}, fav.SIZE_OF_FAV_FOLDER); err != nil {
+					return errs(1)
+				}
+				return ok()
 			}
 			return []string{"9"}
 		},
